@@ -5,57 +5,60 @@
     Ghost state [g] records what the peer actually DELIVERED since the last (re)start: the
     transport parameters in force, every connection limit ([g_md]), every MAX_STREAM_DATA
     (id, value) ([g_msd]) and every stream-count limit ([g_ms]); [lmax]/[kmax] take the maximum.
-    [grun_core i (start side mrb sw p0)] runs ANY list [i] of integer-encoded operations
-    through the very interpreter ([FlowSend.apply]) that is compared with the implementation. *)
-From QV Require Import Lib.Tac Lib.Corr Model.FlowSend Proofs.FlowSendProofs gen.Constants.
+    [grun i (start side mrb sw p0)] runs ANY list [i] of integer-encoded operations — every
+    operation of [FlowSend.apply] — through the very interpreter that is compared with the
+    implementation; operations that violate the calling discipline of [Connection] ([adm]) are
+    skipped. *)
+From QV Require Import Lib.Tac Lib.Corr Model.FlowSend Proofs.RangeSetProofs Proofs.FlowSendProofs
+  Proofs.FlowSendFull gen.Constants.
 Open Scope Z_scope.
 
 (** On every stream the offset written (an upper bound of the highest offset sent) never exceeds
     the stream's limit, and the limit never exceeds the largest value delivered in transport
     parameters or MAX_STREAM_DATA frames. *)
-Theorem C05_stream_offset_within_limit_partial : forall sd mrb sw p0 i s g,
+Theorem C05_stream_offset_within_limit : forall sd mrb sw p0 i s g,
   0 <= sd <= 1 -> params_valid p0 = true ->
-  grun_core i (start sd mrb sw p0) = (s, g) ->
+  grun i (start sd mrb sw p0) = (s, g) ->
   forall id x, lookup id s.(send) = Some (Some x) ->
     0 <= x.(s_offset) <= x.(s_max_data)
     /\ x.(s_max_data) <= delivered_stream_limit g s.(side) id.
 Proof.
   intros sd mrb sw p0 i s g Hs Hv R id x L.
-  exact (i_str _ _ (core_reachable_inv sd mrb sw p0 i s g Hs Hv R) id x L).
+  exact (i_str _ _ (reachable_inv sd mrb sw p0 i s g Hs Hv R) id x L).
 Qed.
-Print Assumptions C05_stream_offset_within_limit_partial.
+Print Assumptions C05_stream_offset_within_limit.
 
 (** [data_sent] is the sum of the offsets of all streams (live ones plus the final offsets of the
     removed ones) and never exceeds [max_data], which is exactly the largest connection limit
     delivered. *)
-Theorem C05_conn_offset_within_limit_partial : forall sd mrb sw p0 i s g,
+Theorem C05_conn_offset_within_limit : forall sd mrb sw p0 i s g,
   0 <= sd <= 1 -> params_valid p0 = true ->
-  grun_core i (start sd mrb sw p0) = (s, g) ->
+  grun i (start sd mrb sw p0) = (s, g) ->
   s.(data_sent) = sum_off s.(send) + g.(g_closed)
   /\ 0 <= s.(data_sent) <= s.(max_data)
   /\ s.(max_data) = lmax g.(g_md).
 Proof.
   intros sd mrb sw p0 i s g Hs Hv R.
-  pose proof (core_reachable_inv sd mrb sw p0 i s g Hs Hv R) as I.
+  pose proof (reachable_inv sd mrb sw p0 i s g Hs Hv R) as I.
   exact (conj (i_sum _ _ I) (conj (i_ds _ _ I) (i_md _ _ I))).
 Qed.
-Print Assumptions C05_conn_offset_within_limit_partial.
+Print Assumptions C05_conn_offset_within_limit.
 
 (** Streams opened never exceed the stream-count limit, which is exactly the largest count
     delivered; [open] answers [None] exactly when they are equal. *)
-Theorem C05_stream_count_within_limit_partial : forall sd mrb sw p0 i s g d,
+Theorem C05_stream_count_within_limit : forall sd mrb sw p0 i s g d,
   0 <= sd <= 1 -> params_valid p0 = true ->
-  grun_core i (start sd mrb sw p0) = (s, g) ->
+  grun i (start sd mrb sw p0) = (s, g) ->
   0 <= get_next (norm_dir d) s <= get_max (norm_dir d) s
   /\ get_max (norm_dir d) s = kmax (norm_dir d) g.(g_ms)
   /\ ((exists s', do_open d s = Some (s', [1])) <-> get_next (norm_dir d) s = get_max (norm_dir d) s).
 Proof.
   intros sd mrb sw p0 i s g d Hs Hv R.
-  pose proof (core_reachable_inv sd mrb sw p0 i s g Hs Hv R) as I.
+  pose proof (reachable_inv sd mrb sw p0 i s g Hs Hv R) as I.
   destruct (i_cnt _ _ I (norm_dir d) (norm_dir_range d)) as (A & B).
   split; [exact A|]. split; [exact B|]. apply open_none_iff. lia.
 Qed.
-Print Assumptions C05_stream_count_within_limit_partial.
+Print Assumptions C05_stream_count_within_limit.
 
 (** The exact formula of [write]: it accepts [min n available] where
     [available = min (max_data - data_sent) (send_window -. unacked_data) (stream limit - offset)]
@@ -63,7 +66,7 @@ Print Assumptions C05_stream_count_within_limit_partial.
     [write_limit] never fails there), for every writable stream. *)
 Theorem C05_write_accepts_at_most_credit : forall sd mrb sw p0 i s g id x n,
   0 <= sd <= 1 -> params_valid p0 = true ->
-  grun_core i (start sd mrb sw p0) = (s, g) ->
+  grun i (start sd mrb sw p0) = (s, g) ->
   lookup id s.(send) = Some (Some x) -> x.(s_state) = 0 -> x.(s_stop) = None -> 0 <= n ->
   let available := Z.min (Z.min (s.(max_data) - s.(data_sent))
                                 (Z.max 0 (s.(send_window) - s.(unacked_data))))
@@ -71,7 +74,7 @@ Theorem C05_write_accepts_at_most_credit : forall sd mrb sw p0 i s g id x n,
   exists s', do_write id n s = Some (s', if available =? 0 then [1] else [0; Z.min n available]).
 Proof.
   intros sd mrb sw p0 i s g id x n Hs Hv R L St Sp Hn.
-  pose proof (core_reachable_inv sd mrb sw p0 i s g Hs Hv R) as I.
+  pose proof (reachable_inv sd mrb sw p0 i s g Hs Hv R) as I.
   apply write_exact; auto.
   - apply (write_limit_some _ _ I).
   - destruct (i_str _ _ I id x L) as (A & _). lia.
@@ -95,24 +98,69 @@ Theorem C05_max_stream_count_constant : MAX_STREAM_COUNT_MODEL = MAX_STREAM_COUN
 Proof. vm_compute. reflexivity. Qed.
 Print Assumptions C05_max_stream_count_constant.
 
-(** FULL statement (NOT proved): the same invariant for the complete operation set admitted by
-    [adm] — [open], [finish], [reset], MAX_STREAM_DATA, MAX_STREAMS, STOP_SENDING, transmission,
-    acknowledgement / loss of sent frames, [reset_acked], [poll], 0-RTT acceptance
-    ([set_params p1 >= p0]) — together with absence of every panic ([apply] never [None]), and
-    [unacked_data = sum of the per-stream unacknowledged bytes].  Proved so far: the machine
-    restricted to write / MAX_DATA / set_send_window / accept / observe ([adm_core]); lemmas for
-    the map surgery of the other operations ([inv_set_entry], [touch_inv], [sc_inv]) are in
-    Proofs/FlowSendProofs.v.  The full operation set is covered by the correspondence oracle
-    (credit ledger) only. *)
+(** [unacked_data] is exactly the sum, over the streams that were not reset, of the bytes written
+    and not yet acknowledged ([usum]: buffered length minus acknowledged-out-of-order ranges) —
+    no drift — in every reachable state of the full model (all operations, including
+    transmission, acknowledgement, loss, reset, Retry and 0-RTT rejection). *)
+Theorem C05_unacked_is_sum : forall sd mrb sw p0 i s g,
+  0 <= sd <= 1 -> params_valid p0 = true ->
+  grun i (start sd mrb sw p0) = (s, g) ->
+  s.(unacked_data) = usum s.(send) /\ 0 <= s.(unacked_data).
+Proof.
+  intros sd mrb sw p0 i s g Hs Hv R.
+  pose proof (reachable_full sd mrb sw p0 i s g Hs Hv R) as F.
+  split; [exact (h_usum _ _ _ (f_hinv _ _ F))|exact (i_unacked _ _ (f_inv _ _ F))].
+Qed.
+Print Assumptions C05_unacked_is_sum.
+
+(** Per stream, in every reachable state: the acknowledged ranges, the ranges queued for
+    retransmission and the frames in flight are pairwise disjoint pieces of [base, unsent) whose
+    lengths add up exactly ([BufOK]/[LiveOK] of Proofs/FlowSendFull.v); consequently the
+    acknowledgement of ANY frame that is in flight on a stream that was not reset succeeds
+    (no underflow in [SendBuffer::ack]) and removes at most that stream's unacknowledged bytes. *)
+Theorem C05_ack_never_underflows : forall sd mrb sw p0 i s g k id a b fin L' x,
+  0 <= sd <= 1 -> params_valid p0 = true ->
+  grun i (start sd mrb sw p0) = (s, g) ->
+  log_get k s.(log) = Some ((id, a, b, fin), L') ->
+  lookup id s.(send) = Some (Some x) -> x.(s_state) <> 3 ->
+  exists x1, sb_ack a b x = Some x1
+    /\ ucontrib (Some x1) = ucontrib (Some x) - (b - a) /\ 0 <= b - a <= ucontrib (Some x).
+Proof.
+  intros sd mrb sw p0 i s g k id a b fin L' x Hs Hv R G Lk Hst.
+  pose proof (reachable_full sd mrb sw p0 i s g Hs Hv R) as F.
+  pose proof (h_buf _ _ _ (f_hinv _ _ F) id x Lk) as Hb.
+  destruct (bufok_ack _ _ _ _ _ _ _ _ G Hb Hst) as (x1 & SA & _ & Hu & Hle & _).
+  destruct (log_get_spec _ _ _ _ G) as (Hl & _). destruct (b_frames _ _ _ Hb _ _ _ _ Hl).
+  exists x1. repeat split; auto; lia.
+Qed.
+Print Assumptions C05_ack_never_underflows.
+
+(** [send_streams] never falls below the number of streams the application holds. *)
+Theorem C05_send_streams_counts : forall sd mrb sw p0 i s g,
+  0 <= sd <= 1 -> params_valid p0 = true ->
+  grun i (start sd mrb sw p0) = (s, g) -> cnt s <= s.(send_streams).
+Proof.
+  intros sd mrb sw p0 i s g Hs Hv R.
+  exact (c_cnt _ _ (f_sinv _ _ (reachable_full sd mrb sw p0 i s g Hs Hv R))).
+Qed.
+Print Assumptions C05_send_streams_counts.
+
+(** FULL statement (NOT proved): absence of every panic — [apply op s <> None] for every
+    admissible operation in every reachable state.  The invariant [Full] (credit [Inv], buffers and
+    in-flight frames [HInv], [send_streams] accounting [SInv]) IS proved for every reachable state
+    of the full model ([reachable_full]) and implies each individual checked operation cannot fail
+    ([write_limit_some], [C05_ack_never_underflows], [reject_some], [sinv_remove] ...), but the
+    single theorem assembling them over all operations is not written. *)
 Definition C05_full : Prop := forall sd mrb sw p0 i s g,
   0 <= sd <= 1 -> 0 <= mrb -> params_valid p0 = true ->
   grun i (start sd mrb sw p0) = (s, g) ->
-  Inv s g /\ (forall op, adm g s op = true -> apply op s <> None).
+  Full s g /\ (forall op, adm g s op = true -> apply op s <> None).
 
 (** Non-vacuity: a reachable state with a stream at its limit, a blocked write, then credit. *)
 Example C05_example :
-  let '(s, g) := grun_core [[3; 1; 100]; [3; 1; 100]; [6; 300]; [3; 1; 1]; [13; 120]; [19]]
-                           (start 0 2 150 (mkParams 200 1 1 120 50 50)) in
-  s.(data_sent) = 120 /\ s.(max_data) = 300 /\ lmax g.(g_md) = 300 /\ s.(unacked_data) = 120
-  /\ exists x, lookup 1 s.(send) = Some (Some x) /\ x.(s_offset) = 120 /\ x.(s_max_data) = 120.
+  let '(s, g) := grun [[2; 0]; [3; 0; 100]; [7; 0; 120]; [3; 0; 100]; [6; 300]; [9; 1200]; [10; 0]; [19]]
+                      (start 0 2 150 (mkParams 200 1 1 120 50 50)) in
+  s.(data_sent) = 120 /\ s.(max_data) = 300 /\ lmax g.(g_md) = 300 /\ s.(unacked_data) = 0
+  /\ kmax 0 g.(g_msd) = 120 /\ s.(next_bi) = 1
+  /\ exists x, lookup 0 s.(send) = Some (Some x) /\ x.(s_offset) = 120 /\ x.(s_max_data) = 120.
 Proof. vm_compute. repeat split. eexists. repeat split. Qed.
